@@ -270,6 +270,12 @@ func implStep(cur *ast.DataMessage, step []string) (next *ast.DataMessage, out s
 	next = cur
 	p := &toks{t: step}
 	op, _ := p.next()
+	argmut := false
+	defer func() {
+		if argmut {
+			out += " ARGMUT" // a producer wrote to the caller's fill-in table
+		}
+	}()
 	pan, r := safely(func() {
 		switch op {
 		case "new":
@@ -297,7 +303,14 @@ func implStep(cur *ast.DataMessage, step []string) (next *ast.DataMessage, out s
 				out = "NOMSG"
 				return
 			}
-			next = cur.FillVariables(p.env())
+			env := p.env()
+			before := envSnapshot(env)
+			defer func() {
+				if envSnapshot(env) != before {
+					argmut = true
+				}
+			}()
+			next = cur.FillVariables(env)
 		case "sess":
 			if cur == nil {
 				out = "NOMSG"
